@@ -6,10 +6,12 @@ import (
 	stdecdsa "crypto/ecdsa"
 	stded "crypto/ed25519"
 	"crypto/elliptic"
+	crand "crypto/rand"
 	"crypto/sha512"
 	"encoding/binary"
 	"errors"
 	"fmt"
+	"github.com/cloudflare/pat-go/tokens/type3"
 	"io"
 	"math/big"
 	"runtime"
@@ -504,6 +506,60 @@ func runC13(c *Ctx) {
 		}
 		c.Run("c13.entropy", cn, "-1", "0")
 		c.Run("c13.entropy", cn, "-1", "1")
+	}
+	c13Caller(c, r)
+}
+
+// callFailReader stands in for crypto/rand.Reader: the n-th read of more than one byte, and every read after it, fails
+// (one-byte reads are the MaybeReadByte coin flips and always succeed, so that positions are stable).
+type callFailReader struct {
+	failAt, calls int
+	failed        bool
+}
+
+func (f *callFailReader) Read(p []byte) (int, error) {
+	if len(p) > 1 {
+		if f.failed || f.calls == f.failAt {
+			f.failed = true
+			return 0, errors.New("entropy source failed")
+		}
+		f.calls++
+	}
+	for i := range p {
+		p[i] = byte(41*f.calls + 7*i + 3)
+	}
+	return len(p), nil
+}
+
+// c13Caller: the package's one caller in the repository, the type-3 client, signs with crypto/rand.Reader: when that
+// reader fails at any read during request creation, no signed request comes out.
+func c13Caller(c *Ctx, r *Rng) {
+	e := getC07Env(c.Seed, 0, []string{"a.example"})
+	cl := newT3Client(r)
+	ch, nonce := r.Bytes(20), r.Bytes(32)
+	kid, tk, nk := e.issuer.TokenKeyID(), e.issuer.TokenKey(), e.issuer.NameKey()
+	saved := crand.Reader
+	defer func() { crand.Reader = saved }()
+	for failAt := 0; failAt < 40; failAt++ {
+		rd := &callFailReader{failAt: failAt}
+		var err error
+		var sig []byte
+		crand.Reader = rd
+		panicked := Try(func() {
+			var st type3.RateLimitedTokenRequestState
+			st, err = type3.NewRateLimitedClientFromSecret(cl.secret).CreateTokenRequest(ch, nonce, cl.blind, kid, tk, "a.example", nk)
+			if err == nil {
+				sig = st.Request().Signature
+			}
+		})
+		crand.Reader = saved
+		if !rd.failed {
+			c.notes["c13_caller_reads"] = failAt
+			break
+		}
+		c.Count("caller-entropy-failure")
+		c.Direct(!panicked && err != nil && sig == nil, "the type-3 client returned a signed request although crypto/rand.Reader failed during its creation",
+			map[string]any{"failed_read": failAt, "err": fmt.Sprint(err), "signature": hx(sig), "panicked": panicked})
 	}
 }
 
